@@ -298,5 +298,5 @@ def run(ctx):
                 "by rename, or a truncation); distinct = distinct (streams, kill/commit/deliver/truncate skeleton, rotation point)")
     ctx.sample(scs[0])
     ctx.assumptions += ["kill instants at the granularity of gate releases and observed commits (not inside a save; the offsets-file "
-                        "protocol itself is C07)", "one watched file (plus its rotated predecessors); symlinks, lz4, remove_after, offsets_op tail/reset not covered",
+                        "protocol itself is C07)", "one watched file (plus its rotated predecessors, or one compressed file); symlinks and offsets_op tail/reset not covered here (C06/C07)",
                         "a line is counted lost only after 6 s without any progress once all gates are open"]
